@@ -7,6 +7,7 @@ import (
 	"strings"
 	"sync/atomic"
 
+	"verif/cli"
 	"verif/ev"
 	"verif/mc"
 	"verif/ref/chordlang"
@@ -26,6 +27,7 @@ type c11Case struct {
 
 func init() {
 	register(&Prop{ID: "C11", Run: runC11, Replay: map[string]func(*Env, json.RawMessage){
+		"key-spelling": func(e *Env, raw json.RawMessage) { c11KeyEval(e, decode[c11KeyCase](raw)) },
 		"variant": func(e *Env, raw json.RawMessage) {
 			c := decode[c11Case](raw)
 			c11Eval(e, &c, mc.NewReplay(c.Choices), true)
@@ -258,6 +260,57 @@ func c11Bases(p *chordlang.SLR, terms []string, maxTok int, syllable bool) [][]c
 	return out
 }
 
+// c11KeySpelling: a key written with a Unicode accidental, wherever a key can be written, is
+// either refused or means exactly what the ASCII spelling means ("an accidental that is accepted is honoured").
+type c11KeyCase struct {
+	Door  string `json:"door"`
+	ASCII string `json:"ascii_key"`
+	Uni   string `json:"unicode_key"`
+}
+
+func c11KeyDoor(door, key string) cli.Res {
+	doc := "- chord:\n    degree: \"1\"\n    name: \"\"\n  values:\n    - \"1\"\n"
+	switch door {
+	case "syllable-metadata":
+		return cli.In("C[1] G[1]{key="+key+"} G[1]", "text", "conv", "syllable")
+	case "degree-metadata":
+		return cli.In("1[1] 5[1]{key="+key+"} 5[1]", "text", "conv", "degree")
+	case "syllable-flag":
+		return cli.In("G[1] A[1]", "text", "conv", "syllable", "--key", key)
+	case "write-yaml":
+		return cli.In(doc+"  key: \""+key+"\"\n", "write", "event")
+	case "write-flag":
+		return cli.In(doc, "write", "event", "--key", key)
+	case "info-key-describe":
+		return cli.In("", "info", "key", "describe", "--key", key)
+	case "info-key-conv":
+		return cli.In("", "info", "key", "conv", "--key", key, "-c", "d")
+	}
+	panic(door)
+}
+
+func c11KeyEval(e *Env, c c11KeyCase) {
+	e.R.Eval(1)
+	a := c11KeyDoor(c.Door, c.ASCII)
+	u := c11KeyDoor(c.Door, c.Uni)
+	if u.TimedOut || u.Crashed() {
+		e.R.Fail(ev.Fail{Class: "C11/crash-or-hang", Msg: fmt.Sprintf("key %s through %s: %s", c.Uni, c.Door, firstLine(u.Stderr)), Kind: "key-spelling", Case: c})
+		return
+	}
+	if !u.OK() {
+		e.R.Outcome("unicode key refused")
+		return // refusing the Unicode spelling of a key is allowed
+	}
+	if !a.OK() || !bytes.Equal(normKey(a.Stdout, c.ASCII), normKey(u.Stdout, c.Uni)) {
+		e.R.Fail(ev.Fail{Class: "C11/output-differs/unicode-accidental-in-key", Msg: fmt.Sprintf("key %s through %s is accepted but does not mean %s: ASCII spelling ok=%v\n--- %s ---\n%s--- %s ---\n%s", c.Uni, c.Door, c.ASCII, a.OK(), c.ASCII, trunc(string(a.Stdout), 400), c.Uni, trunc(string(u.Stdout), 400)), Kind: "key-spelling", Case: c})
+	}
+}
+
+// normKey hides the echoed spelling of the key itself (metadata is echoed as written).
+func normKey(b []byte, key string) []byte {
+	return bytes.ReplaceAll(b, []byte(key), []byte("<KEY>"))
+}
+
 func runC11(e *Env) {
 	e.R.Rule = "base sentences = every accepted token sequence of chords.y up to the stated number of tokens with at least one chord, written in note-name and in degree notation; variant choice points: every inter-token gap outside braces (nothing/space, space, tab, newline, comment, two spaces, blank line, empty comment, comment followed by indentation, two comments in a row, comment followed by a blank line, CR LF), leading whitespace after { = , inside braces, `_` before each non-numeric symbol, each duration as n / 0n / 00n, each accidental as # b or as the Unicode sign; all variants within the deviation bound; text conv must print the same bytes (same verdict) as for the canonical spelling. distinct = (sentence, choice vector); non-trivial = the variant differs from the canonical text and reads back as the same tokens"
 	e.R.Assume("metamorphic oracle; the documented tokeniser (ref/chordlang) decides which variants are spellings of the same tokens; the meaning of the canonical spelling itself is C03's/C05's business")
@@ -323,6 +376,19 @@ func runC11(e *Env) {
 		e.R.State(fmt.Sprint("sentence:", bi))
 	}
 	e.R.AddPart(ev.Part{Name: "spelling-variants", Enumerated: fmt.Sprintf("%d base sentences (accepted token sequences <= %d tokens in both notations + 4 longer ones); all variants with <= %d deviations (in thorough 3 for sentences <= 8 tokens, 2 beyond, full product for sentences of 4 tokens); real binary for the 1-deviation variants of every 2nd sentence (quick) / all (thorough)", len(bases), maxTok, bound), Executions: execs, States: int64(len(bases)), Transitions: execs, Exhaustive: true, Note: fmt.Sprintf("%d generated variants do not read back as the same tokens and were skipped", atomic.LoadInt64(&c11NotPreserving))})
+	var kc []c11KeyCase
+	for _, k := range []string{"Eb", "Bb", "F#", "C#", "F#m", "Ebm", "Bbm", "C#m", "Cb", "G#m"} {
+		u := strings.NewReplacer("#", "♯", "b", "♭").Replace(k[:len(k)-strings.Count(k, "m")]) + strings.Repeat("m", strings.Count(k, "m"))
+		for _, door := range []string{"syllable-metadata", "degree-metadata", "syllable-flag", "write-yaml", "write-flag", "info-key-describe", "info-key-conv"} {
+			kc = append(kc, c11KeyCase{door, k, u})
+		}
+	}
+	mc.ParFor(len(kc), func(i int) {
+		c11KeyEval(e, kc[i])
+		e.R.NonTrivialN(1)
+		e.R.Trace(1)
+	})
+	e.R.AddPart(ev.Part{Name: "unicode-accidental-in-keys", Enumerated: "10 keys with an accidental x 7 doors a key can come through (text metadata in both notations, --key on text conv / write / info key describe / info key conv, key: in the instances document): the Unicode spelling is refused or gives the output of the ASCII spelling", Executions: int64(len(kc)), Exhaustive: true})
 	if len(bases) > 0 {
 		b := bases[len(bases)-4]
 		e.R.Sample(map[string]any{"canonical": c11Build(b.toks, mc.NewReplay(nil)), "variant_example": "C\t♯ _m7 [01 ,\n2]"})
